@@ -62,8 +62,11 @@ def discrete_case(rep, drv, rng, th):
 	from scipy import stats
 	N = rng.randint(1, 4 if th else 3)
 	h = [rng.choice([1, 2, 3, 0.5]) for _ in range(N)]          # echelon holding costs, stage 1 first
+	if N >= 2 and rng.random() < .35:
+		# a costly upstream echelon: the upstream cost function is then minimised BELOW the downstream optimum
+		h[rng.randrange(1, N)] = rng.choice([4, 8]); rep.count('ssm:costly-upstream-echelon')
 	Ls = [rng.choice([1, 1, 2, 3]) for _ in range(N)]
-	p = rng.choice([5, 10, 37.12, 20])
+	p = rng.choice([5, 10, 37.12, 20, 2])
 	kind = rng.choice(['P', 'P', 'UD', 'CD'])
 	if kind == 'P':
 		ds = DemandSource(type='P', mean=rng.choice([2, 5, 8]))
